@@ -220,8 +220,30 @@ def main(argv=None):
         return finish(ctx, mod)
 
     if args.replay:
-        rc = mod.replay(ctx, json.load(open(args.replay)))
-        return rc
+        data = json.load(open(args.replay))
+        rc = mod.replay(ctx, data)
+        if rc:
+            return rc
+        # generic replay: every random choice derives from the seed, so re-running the harness with the seed
+        # and tier recorded in the file reproduces the failure if the code still has it
+        sig = data.get("signature")
+        if sig is None or "seed" not in data:
+            return rc
+        print("re-running %s with seed %s, tier %s, looking for signature %r ..." % (prop, data["seed"], data.get("tier", "quick"), sig))
+        ctx2 = Ctx(prop, data.get("tier", "quick"), int(data["seed"]))
+        ctx2.impl_dir = impl_dir
+        ctx2.gen_errs = regenerate(ctx2)
+        try:
+            mod.run(ctx2)
+        except Exception:
+            print(traceback.format_exc()[-1500:])
+            return 1
+        hit = [w for s_, w, _ in ctx2.oracle_fail if s_ == sig]
+        if hit:
+            print("REPRODUCED: " + hit[0][:600])
+            return 1
+        print("not reproduced: the signature does not occur any more")
+        return 0
 
     # 2. generated files, 3. proof obligations
     gen_errs = regenerate(ctx)
